@@ -4,7 +4,8 @@
 # On success copies it to /verif/seeded/<prop>-<letter>/ .
 set -u
 prop="$1"; letter="$2"
-case "$letter" in A|B) src="/tmp/wt/$prop-out/$letter";; C|D|E) src="/tmp/wt2/$prop-out/$letter";; F|G|H) src="/tmp/wt3/$prop-out/$letter";; J|K|L) src="/tmp/wt4/$prop-out/$letter";; M|N) src="/tmp/wt5/$prop-out/$letter";; *) src="/tmp/wt6/$prop-out/$letter";; esac
+case "$letter" in A|B) src="/tmp/wt/$prop-out/$letter";; C|D|E) src="/tmp/wt2/$prop-out/$letter";; F|G|H) src="/tmp/wt3/$prop-out/$letter";; J|K|L) src="/tmp/wt4/$prop-out/$letter";; M|N) src="/tmp/wt5/$prop-out/$letter";; P|Q) src="/tmp/wt6/$prop-out/$letter";; *) src="/tmp/wt7/$prop-out/$letter";; esac
+[ -n "${SRC:-}" ] && src="$SRC"
 export GOFLAGS=-mod=mod GOPROXY=off GOSUMDB=off GOTOOLCHAIN=local PATH=/opt/veriftools/go1.26.8/bin:$PATH
 wt="/tmp/sv-$prop-$letter"
 git -C /repo worktree remove --force "$wt" >/dev/null 2>&1
@@ -21,7 +22,13 @@ case "$pkgline" in
   *) echo "unknown package $pkgline"; exit 2;;
 esac
 cd "$wt"
-git apply "$src/patch.diff" || { echo "RESULT $prop-$letter: patch does not apply"; exit 1; }
+patchfile="$src/patch.diff"
+if ! git apply "$patchfile" 2>/dev/null; then
+  # the agent's worktree may be a few fix: commits behind /repo: retry with fuzz and regenerate the diff
+  patch -p1 -s --no-backup-if-mismatch -i "$patchfile" >/dev/null 2>&1 || { git checkout -q -- .; echo "RESULT $prop-$letter: patch does not apply"; exit 1; }
+  find . -name '*.orig' -delete; git diff > /tmp/sv-$prop-$letter.rebased.diff; patchfile=/tmp/sv-$prop-$letter.rebased.diff
+  echo "note: patch applied with fuzz and regenerated against /repo HEAD"
+fi
 go build ./... || { echo "RESULT $prop-$letter: does not build"; exit 1; }
 if ! go test -vet=off -count=1 ./... >/tmp/sv-$prop-$letter.suite.log 2>&1; then echo "RESULT $prop-$letter: existing suite FAILS with the change"; tail -5 /tmp/sv-$prop-$letter.suite.log; exit 1; fi
 cp "$demo" "$dir/"
@@ -31,7 +38,7 @@ timeout 300 go test -vet=off -count=1 -run 'Demo|demo|Zz|ZZ|C[0-9][0-9]' ./$dir 
 nrun=$(grep -c '^--- \|^ok\|^FAIL' /tmp/sv-$prop-$letter.with.log)
 if [ $with -ne 0 ] && [ $without -eq 0 ]; then
   d="/verif/seeded/$prop-$letter"; mkdir -p "$d"
-  cp "$src/patch.diff" "$d/patch.diff"; cp "$demo" "$d/"; cp "$src/notes.md" "$d/notes.md" 2>/dev/null
+  cp "$patchfile" "$d/patch.diff"; cp "$demo" "$d/"; cp "$src/notes.md" "$d/notes.md" 2>/dev/null
   echo "RESULT $prop-$letter: CONFIRMED (suite passes with change; demo fails with, passes without)"
 else
   echo "RESULT $prop-$letter: NOT confirmed (demo with=$with without=$without)"; tail -5 /tmp/sv-$prop-$letter.with.log; tail -5 /tmp/sv-$prop-$letter.without.log
